@@ -469,6 +469,16 @@ pub fn generate(rng: &mut Rng, n: usize, tier: &str) -> Vec<String> {
             push(b, &p, &e, "");
         }
     }
+    // 1b. unknown operators whose cost is exactly the largest allowed one (2^32 - 1), and one byte of
+    // argument either side (old cost model = the reference's)
+    for (op, flags, sz) in crate::costs::exact_limit_cases() {
+        if flags != 0 || sz.iter().any(|l| *l > 3000) {
+            continue;
+        }
+        let args: Vec<T> = sz.iter().map(|l| progs::quote(T::Atom(crate::costs::zbuf()[..*l as usize].to_vec()))).collect();
+        let p = T::pair(T::Atom(op.clone()), T::list(args));
+        push(0, &p, &T::nil(), "");
+    }
     // 2. the repository's vectors
     let vectors = load_vectors();
     let stride = if tier == "thorough" { 1 } else { 1 };
